@@ -446,14 +446,13 @@ pub fn catalogue() -> Vec<Builtin> {
         expect_eq!(cx, "b_lines_slice", got, exp, "{s:?}, {i}, {j}");
         Ok(())
     }});
-    v.push(Builtin { name: "b_lines_get", src: "fn b_lines_get(s: String, i: u64) -> char? { s.lines().get(i) }", run: |cx| {
-        // documented "Get the nth line in this string" but typed `-> char?`: survival only (known finding C17-F1 is
-        // checked separately through the documented usage)
+    v.push(Builtin { name: "b_lines_get", src: "fn b_lines_get(s: String, i: u64) -> String? { s.lines().get(i) }", run: |cx| {
+        // documented: "Get the nth line in this string"
         let s = gen_string(cx.c);
-        let i = gen_index(cx.c, s.len());
-        let f = get!(cx, "b_lines_get", fn(RotoString, u64) -> Option<char>);
-        let got = f.call(rs(&s), i);
-        cx.sample = format!("b_lines_get({s:?}, {i}) = {got:?} (not judged)");
+        let i = gen_index(cx.c, s.lines().count());
+        let f = get!(cx, "b_lines_get", fn(RotoString, u64) -> Option<RotoString>);
+        cx.nontrivial = subject_nt(&s);
+        expect_eq!(cx, "b_lines_get", f.call(rs(&s), i).map(|x| x.to_string()), usize::try_from(i).ok().and_then(|i| s.lines().nth(i)).map(|x| x.to_string()), "{s:?}, {i}");
         Ok(())
     }});
     // ---------------------------------------------------------------- StringBuf
@@ -719,4 +718,24 @@ pub fn full_source(cat: &[Builtin]) -> String {
 
 pub fn compile_catalogue(rt: &Runtime<NoCtx>, cat: &[Builtin]) -> Result<Package<NoCtx>, String> {
     crate::host::compile(rt, &full_source(cat))
+}
+
+/// Compile the catalogue; entries whose (documented) usage the compiler rejects are left out
+/// and returned with the compiler's message, so that the rest can still be checked.
+pub fn compile_catalogue_lenient(rt: &Runtime<NoCtx>, cat: &[Builtin]) -> Result<(Package<NoCtx>, Vec<(&'static str, String)>), String> {
+    if let Ok(p) = compile_catalogue(rt, cat) {
+        return Ok((p, Vec::new()));
+    }
+    let mut broken = Vec::new();
+    let mut src = String::new();
+    for b in cat {
+        match crate::host::compile(rt, b.src) {
+            Ok(_) => {
+                src.push_str(b.src);
+                src.push('\n');
+            }
+            Err(e) => broken.push((b.name, e)),
+        }
+    }
+    crate::host::compile(rt, &src).map(|p| (p, broken))
 }
